@@ -71,6 +71,20 @@ partial def parseQuery : Sexp → Option Query
         pure (AggSpec.mk (← parseAggFn fn) (d == "distinct") (← parseExpr arg) f)
       | _ => none
     pure (.agg (← gs.mapM parseExpr) as (← parseQuery q))
+  | .list [.atom "aggsets", .list gs, .list sets, .list aggs, q] => do
+    let as ← aggs.mapM fun a => match a with
+      | .list [.atom fn, .atom d, arg, filt] => do
+        let f ← match filt with
+          | .atom "none" => pure none
+          | e => (parseExpr e).map some
+        pure (AggSpec.mk (← parseAggFn fn) (d == "distinct") (← parseExpr arg) f)
+      | _ => none
+    let ss ← sets.mapM fun st => match st with
+      | .list is => is.mapM fun i => match i with
+        | .atom a => a.toNat?
+        | _ => none
+      | _ => none
+    pure (.aggSets (← gs.mapM parseExpr) ss as (← parseQuery q))
   | .list [.atom "distinct", q] => do pure (.distinct (← parseQuery q))
   | .list [.atom "union", .atom a, l, r] => do pure (.union (a == "all") (← parseQuery l) (← parseQuery r))
   | .list [.atom "sort", .list keys, q] => do
